@@ -37,6 +37,14 @@ Theorem C42_others_closed : forall n s, 1 <= n -> reachable n s -> returned (d_m
 Proof. exact others_closed. Qed.
 Print Assumptions C42_others_closed.
 
+(* no connection is closed twice, and the returned connection is never closed by the resolver *)
+Theorem C42_no_double_close : forall s e s' j, step s e = Some s' -> closed_conn s j -> closed_conn s' j /\ e <> ELeave j.
+Proof. exact no_double_close. Qed.
+Print Assumptions C42_no_double_close.
+Theorem C42_returned_never_closed : forall n s i, 1 <= n -> reachable n s -> d_main s = RetConn i -> ~ closed_conn s i.
+Proof. exact returned_never_closed. Qed.
+Print Assumptions C42_returned_never_closed.
+
 (* a connection that becomes established later (dial completes after the return / the cancellation) *)
 Theorem C42_late_dial_closed : forall n s j s1, 1 <= n -> reachable n s -> d_dialctx s = true ->
   step s (EDialDone j true) = Some s1 -> exists s2, step s1 (ELeave j) = Some s2 /\ closed_conn s2 j.
